@@ -178,7 +178,7 @@ func (eng) Generate(mode, tier string, r *hx.Rand) []*hx.Case {
 	}
 	na, nd, nh := 300, 400, 150
 	if tier == "thorough" {
-		na, nd, nh = 3000, 4000, 2500
+		na, nd, nh = 3000, 4000, 2000
 	}
 	for i := 0; i < na; i++ {
 		cs = append(cs, genAssign(r.Fork(), i))
